@@ -33,6 +33,18 @@
      `subs_then_subs_eval` — the evaluation after two substitutions is the evaluation with both
      applied.  The record `subsKeepingLayers` (substituted boxes, old layers) is shown NOT to have
      these properties on a concrete diagram.
+   * NESTED DATA (Model/ParamData.lean: the containers a box may be handed as `data` — list,
+     tuple, set, frozenset, dict, numpy array, 0-d array — with `recursive_free_symbols`
+     cat.py:509-517 and `rmap` cat.py:30-48 transcribed as recursions over them):
+     `free_symbols_nested` — the symbols collected are exactly those of the entries;
+     `free_symbols_container_irrelevant` — two ways of handing the same entries to a box report
+     the same symbols; `free_symbols_nested_flat_box` — and the same as the flat box of
+     Model/Param.lean; `rmap_entries_and_containers` — substitution maps the entries in place and
+     keeps every container; `lambdify_eq_subs_nested`; `subs_all_closed_nested`; `box_subs_hits_nested` — the early exit of
+     `Box.subs` is taken only if no entry mentions the variable.  For 0-d arrays these are FALSE
+     on the code as found (finding F4z: the array, not its item, is asked for free symbols):
+     proved for data without 0-d arrays and for the repaired transcription, negation `decide`d on
+     a witness (`zero_d_array_hides_its_symbols_witness`).
   What is NOT proved: that sympy's `subs`/`lambdify` ARE ring homomorphisms on sympy
   expressions (sympy's polynomial arithmetic is compared with the model's on every run by the
   streams `psubseval`/`pevalsubs`).  Tensor.subs / CQMap.subs on the evaluated array (findings
@@ -42,6 +54,7 @@
 import Proofs.ParamGates
 import Proofs.PolyDiagram
 import Proofs.ParamSeq
+import Proofs.ParamData
 import Mathlib.Data.ZMod.Basic
 
 namespace DV.C14
@@ -228,6 +241,66 @@ theorem lambdify_eq_subs {A K : Type} [CommRing A] [CommRing K] [HasConj A] [Has
     exact congrFun (congrFun (evalLayers_natural ev hev d.layers) i) k
 
 
+/-! ### nested box data: the container is not data -/
+
+/-- **The free symbols of a box are exactly the symbols occurring in the entries of its data**,
+    however deeply and in whatever containers (list, tuple, set, frozenset, dict values, numpy
+    array) the entries sit — for data without 0-d arrays, or with the repaired reading of 0-d
+    arrays (`z = true`). -/
+theorem free_symbols_nested {R : Type} (z : Bool) (fs : R → List Nat) (d : PData R)
+    (h : z = true ∨ d.noZeroD = true) (v : Nat) :
+    v ∈ d.freeSymbols z fs ↔ ∃ e ∈ d.entries, v ∈ fs e :=
+  PData.mem_freeSymbols_entries z fs v d h
+
+/-- The same entries in two different containers report the same free symbols. -/
+theorem free_symbols_container_irrelevant {R : Type} (z : Bool) (fs : R → List Nat)
+    (d d' : PData R) (hd : z = true ∨ d.noZeroD = true) (hd' : z = true ∨ d'.noZeroD = true)
+    (h : d.entries = d'.entries) (v : Nat) :
+    v ∈ d.freeSymbols z fs ↔ v ∈ d'.freeSymbols z fs :=
+  PData.freeSymbols_container_irrelevant z fs d d' hd hd' h v
+
+/-- …and the same as the flat box of Model/Param.lean (whose evaluation theorems then apply). -/
+theorem free_symbols_nested_flat_box {R : Type} (z : Bool) (fs : R → List Nat) (d : PData R)
+    (hd : z = true ∨ d.noZeroD = true) (dom cod : List Nat) (dg : Bool) (v : Nat) :
+    v ∈ (({ dom := dom, cod := cod, dagger := dg, data := d.entries } : PBox R).freeSymbols fs)
+      ↔ v ∈ d.freeSymbols z fs :=
+  PData.freeSymbols_flat_box z fs d hd dom cod dg v
+
+/-- `rmap` (hence `rsubs`, `Box.subs`) maps the entries in place and keeps every container. -/
+theorem rmap_entries_and_containers {R S : Type} (f : R → S) (d : PData R) :
+    (d.rmap f).entries = d.entries.map f
+      ∧ (d.rmap f).rmap (fun _ => ()) = d.rmap (fun _ => ()) :=
+  ⟨PData.entries_rmap f d, PData.shape_rmap f d⟩
+
+/-- Nested data: lambdifying (evaluating every entry at the values, `ev`) and reading the numbers
+    back as data (`ι`) is the substitution `ι ∘ ev`; two substitutions compose. -/
+theorem lambdify_eq_subs_nested {A K : Type} (ev : A → K) (ι : K → A) (d : PData A) :
+    (d.rmap ev).rmap ι = d.rmap (fun e => ι (ev e)) :=
+  PData.rmap_rmap ev ι d
+
+/-- Substituting closed values for every entry leaves no free symbol, whatever the containers. -/
+theorem subs_all_closed_nested {R S : Type} (z : Bool) (fs : S → List Nat) (f : R → S)
+    (hclosed : ∀ e, fs (f e) = []) (d : PData R) : (d.rmap f).freeSymbols z fs = [] :=
+  PData.freeSymbols_rmap_closed z fs f hclosed d
+
+/-- `Box.subs` substitutes (does not take its early exit) whenever an entry mentions a
+    substituted variable. -/
+theorem box_subs_hits_nested {R : Type} (z : Bool) (fs : R → List Nat) (vars : List Nat)
+    (f : R → R) (d : PData R) (hd : z = true ∨ d.noZeroD = true)
+    (h : ∃ v ∈ vars, ∃ e ∈ d.entries, v ∈ fs e) : d.boxSubs z fs vars f = d.rmap f :=
+  PData.boxSubs_hits z fs vars f d hd h
+
+/-- Finding F4z on the model: as the code is (`z = false`) a 0-d array holding `x0 + x1` reports
+    no free symbol, so `Box.subs` returns the box unchanged; the same entry in a one-element tuple
+    is reported and substituted. -/
+theorem zero_d_array_hides_its_symbols_witness :
+    (PData.zeroD (Poly.var 0 + Poly.var 1)).freeSymbols false Poly.vars = []
+    ∧ (PData.zeroD (Poly.var 0 + Poly.var 1)).boxSubs false Poly.vars [0] (Poly.subst1 0 (Poly.const 2))
+        = PData.zeroD (Poly.var 0 + Poly.var 1)
+    ∧ (PData.node .tuple (.cons (.leaf (Poly.var 0 + Poly.var 1)) .nil)).freeSymbols false Poly.vars = [0, 1]
+    ∧ (PData.zeroD (Poly.var 0 + Poly.var 1)).freeSymbols true Poly.vars = [0, 1] := by
+  decide
+
 /-! ### sequences of operations on one diagram -/
 
 /-- **The result of `subs` is one value.**  Whatever `boxes`/`offsets` the argument carried, the
@@ -342,5 +415,20 @@ example : (r0.subsKeepingLayers (· * 2)).evalBoxes 0 0 = 4 * (r0.subsKeepingLay
 example : (((r0.subsKeepingLayers (· * 2)).slice 1 2).boxes.map (·.data))
     ≠ (sliceL 1 2 (r0.subsKeepingLayers (· * 2)).boxes).map (·.data) := by decide
 noncomputable example : CommRing NPoly := inferInstance
+
+/-- Nested data: `[(x0·x1, 1), {'k': {x2}}]` and the flat list `[x0·x1, 1, x2]` hold the same entries. -/
+def n0 : PData Poly :=
+  .node .list (.cons (.node .tuple (.cons (.leaf (Poly.var 0 * Poly.var 1)) (.cons (.leaf 1) .nil)))
+    (.cons (.node .dict (.cons (.node .set (.cons (.leaf (Poly.var 2)) .nil)) .nil)) .nil))
+def n1 : PData Poly :=
+  .node .list (.cons (.leaf (Poly.var 0 * Poly.var 1)) (.cons (.leaf 1) (.cons (.leaf (Poly.var 2)) .nil)))
+example : n0.entries = n1.entries := by decide
+example : n0.noZeroD = true ∧ n0.freeSymbols false Poly.vars = [0, 1, 2] := by decide
+example (v : Nat) : v ∈ n0.freeSymbols false Poly.vars ↔ v ∈ n1.freeSymbols false Poly.vars :=
+  free_symbols_container_irrelevant false Poly.vars n0 n1 (Or.inr rfl) (Or.inr rfl) (by decide) v
+example : (n0.boxSubs false Poly.vars [2] (Poly.subst1 2 (Poly.const 3))).freeSymbols false Poly.vars = [0, 1] := by
+  decide
+example : (n0.rmap (fun _ => Poly.const 1)).freeSymbols false Poly.vars = [] :=
+  subs_all_closed_nested false Poly.vars _ (fun _ => by decide) n0
 
 end DV.C14
